@@ -6,7 +6,7 @@ LEVEL = "exploration"
 
 def plan(tier, seed):
     quick = tier == "quick"
-    cases = 24 if quick else 1500
+    cases = 60 if quick else 1500
     net = runner.net_path("material", 1)
     shards = []
     for i in range(16):
